@@ -170,7 +170,8 @@ class Ctx(object):
                 except Exception as e:
                     info["search_error"] = str(e)
         if k is not None:
-            self.report_known(k, nm)
+            self.report_known(k)
+            self.obligations -= 1    # carved out: proved separately under the carve-out precondition
             self.extra.setdefault("known_findings_reproduced", []).append(nm)
             return
         self.violation(nm, info, confirmed)
@@ -188,7 +189,7 @@ class Ctx(object):
             return
         k = self.known_open(ident)
         if k is not None:
-            self.report_known(k, ident)
+            self.report_known(k)
             self.obligations -= 1   # carved out: not counted as an obligation of this run
             self.extra.setdefault("known_findings_reproduced", []).append(ident)
             return
